@@ -34,6 +34,7 @@ def plainB (env : Env) (fmt : Fmt) (lv : List String) : Nat → TyExpr → Bool
       && s.fields.all fun fd => !rendered fd ||
           (!fd.yamlSkip &&
             (if fd.yamlInline then isNull (zeroVal env f fd.ty) && (fmt == .yaml || skipOf fmt fd)
+                && !((s.fields.filter (keyed fmt)).map (keyOf fmt)).contains fd.yamlKey
              else !skipOf fmt fd && keyOf fmt fd == fd.yamlKey && plainB env fmt lv f fd.ty))
     | none => match findNamed env.named n with
       | some e => plainB env fmt lv f e
